@@ -11,7 +11,7 @@ func init() {
 	regWitness(
 		Witness{Rule: "C11.header", Name: "tags-values-swapped", File: f, Old: "\t// Tags\n\tn = binary.PutUvarint(tmp[:], uint64(rawTags))", New: "\t// Tags\n\tn = binary.PutUvarint(tmp[:], uint64(rawValues))", Breaks: "every blob declares the wrong tag size and is unreadable"},
 		Witness{Rule: "C11.header", Name: "message-size-from-compressed", File: f, Old: "n = binary.PutUvarint(tmp[:], uint64(len(s.stringBuf)))\n\tdst = append(dst, tmp[:n]...)\n\t// Message", New: "n = binary.PutUvarint(tmp[:], uint64(len(s.sMsg)))\n\tdst = append(dst, tmp[:n]...)\n\t// Message", Breaks: "compressed blobs declare the compressed size as the message size"},
-		Witness{Rule: "C11.header", Name: "dedup-without-compare", File: f, Old: "\t\tif bytes.Equal(found, sb) {\n\t\t\treturn uint64(off)\n\t\t}", New: "\t\treturn uint64(off)", Breaks: "two different strings of equal length with colliding hashes are merged"},
+		Witness{Rule: "C11.header", Name: "dedup-without-compare", File: f, Old: "\t\tif bytes.Equal(found, sb) {\n\t\t\treturn uint64(off)\n\t\t}", New: "\t\t_ = found\n\t\treturn uint64(off)", Breaks: "two different strings of equal length with colliding hashes are merged"},
 	)
 }
 
